@@ -156,7 +156,7 @@ func (w *World) doStake(in Intent) {
 
 // MutationFields lists, per event type, the fields the property C14 names.
 var MutationFields = map[string][]string{
-	"TransferToChainEvent":      {"coin", "amount", "fee", "fee_neg", "sender", "receiver", "dest_chain", "height", "height_hi", "tx_hash", "type", "shift_coin_amount", "shift_dec_first", "shift_dec_last", "shift_amount_fee"},
+	"TransferToChainEvent":      {"coin", "amount", "fee", "fee_neg", "sender", "sender_0X", "receiver", "receiver_bare", "dest_chain", "height", "height_hi", "tx_hash", "type", "shift_coin_amount", "shift_dec_first", "shift_dec_last", "shift_amount_fee"},
 	"SendToHubEvent":            {"coin", "amount", "sender", "receiver", "height", "height_hi", "tx_hash", "type", "shift_coin_amount", "shift_dec_first", "shift_dec_last"},
 	"BatchExecutedEvent":        {"coin", "batch_nonce", "batch_nonce_hi", "height", "height_hi", "tx_hash", "fee_paid", "fee_paid_neg", "fee_payer", "type"},
 	"SignerSetTxExecutedEvent":  {"set_nonce", "set_nonce_hi", "height", "height_hi", "tx_hash", "member_addr", "member_power", "member_power_hi", "type"},
@@ -209,6 +209,19 @@ func (w *World) Mutate(chain string, ev mhub2types.ExternalEvent, mut string) mh
 			c.Sender = flipHexChar(c.Sender, len(c.Sender)-1)
 		case "receiver":
 			c.ExternalReceiver = flipHexChar(c.ExternalReceiver, len(c.ExternalReceiver)-1)
+		case "receiver_bare":
+			// the same 40 digits without the 0x prefix, destination hub: the hub pays the account it reads from
+			// the text after its first two characters, i.e. another account - a different effect, hence a different event
+			if c.ReceiverChainId != "hub" || !strings.HasPrefix(c.ExternalReceiver, "0x") {
+				return nil
+			}
+			c.ExternalReceiver = c.ExternalReceiver[2:]
+		case "sender_0X":
+			// the same sender with an upper-case prefix is not recognised as a holder: another commission
+			if c.ReceiverChainId == "hub" || !strings.HasPrefix(c.Sender, "0x") {
+				return nil
+			}
+			c.Sender = "0X" + c.Sender[2:]
 		case "dest_chain":
 			for _, ch := range []string{"hub", "ethereum", "bsc", "minter"} {
 				if ch != c.ReceiverChainId && ch != chain {
